@@ -31,7 +31,7 @@ Definition goval_of_token (t : token) : goval :=
 Record oracles := mkOracles {
   o_float : bytes -> option (N * N);   (* strconv.ParseFloat(s, 64) = v, nil:  (Float64bits v, Float32bits (float32 v)) *)
   o_time : bytes -> option (Z * Z);    (* time.Parse(time.RFC3339, s) = t, nil: (t.Unix(), t.Nanosecond()) *)
-  o_decimal : bytes -> option bytes    (* decimal.NewFromString(s) = d, nil:    d.String() *)
+  o_decimal : bytes -> option (bytes * Z)   (* decimal.NewFromString(s) = d, nil:  (d.String(), d.Exponent()) *)
 }.
 
 (* ------------------------------------------------------------ integers *)
@@ -81,7 +81,14 @@ Definition parse_uint_bits (hi : Z) (s : bytes) : option Z :=
 Definition int_from_go (k : scalar_kind) (v : goval) : outcome (option pval) :=
   match v with
   | GNum lit =>
-    (* json.Number.Int64(), then the per-format switch on an int64 *)
+    (* UINT64: strconv.ParseUint(number, 10, 64); otherwise json.Number.Int64(),
+       then the per-format switch on the uint64 / int64 *)
+    if match k with KUint64 => true | _ => false end then
+      match parse_uint_bits max_u64 lit with
+      | Some z => Ok (Some (VInt z))
+      | None => Err "strconv.ParseUint"
+      end
+    else
     match parse_int_bits min_i64 max_i64 lit with
     | None => Err "json.Number.Int64"
     | Some z =>
@@ -105,7 +112,7 @@ Definition int_from_go (k : scalar_kind) (v : goval) : outcome (option pval) :=
     | Some z => Ok (Some (VInt z))
     | None => Err "strconv"          (* fix: was swallowed (invalid Value, nil error) *)
     end
-  | GNil | GBool _ => Err "expected int"
+  | GNil | GBool _ => Err "type: expected int"
   end.
 
 (* ------------------------------------------------------------ floats *)
@@ -120,7 +127,7 @@ Definition float_from_go (orc : oracles) (k : scalar_kind) (v : goval) : outcome
     match v with
     | GNum l => match o_float orc l with Some r => Ok r | None => Err "json.Number.Float64" end
     | GStr s => match o_float orc s with Some r => Ok r | None => Err "strconv.ParseFloat" end
-    | GNil | GBool _ => Err "value can't float"
+    | GNil | GBool _ => Err "type: value can't float"
     end in
   obind parsed (fun r =>
     match k with
@@ -208,16 +215,30 @@ Definition wrap_i32 (z : Z) : Z :=
   let m := (z mod 4294967296)%Z in
   if (m <? 2147483648)%Z then m else (m - 4294967296)%Z.
 
-(* date_j5t.DateFromString: three '-'-separated Atoi fields, no calendar check *)
+(* daysIn(year, month): proleptic Gregorian calendar *)
+Definition is_leap (y : Z) : bool :=
+  ((y mod 4 =? 0) && (negb (y mod 100 =? 0) || (y mod 400 =? 0)))%Z.
+Definition days_in (y m : Z) : Z :=
+  if ((m =? 4) || (m =? 6) || (m =? 9) || (m =? 11))%Z then 30%Z
+  else if (m =? 2)%Z then (if is_leap y then 29%Z else 28%Z)
+  else 31%Z.
+
+(* date_j5t.DateFromString: three '-'-separated Atoi fields; year 0..9999,
+   month 1..12, day 1..daysIn (so the int32 conversions never truncate) *)
 Definition date_from_string (s : bytes) : option (Z * Z * Z) :=
   match split_on 45 s [] with
   | [a; b; c] =>
     match atoi a, atoi b, atoi c with
-    | Some y, Some m, Some d => Some (wrap_i32 y, wrap_i32 m, wrap_i32 d)
+    | Some y, Some m, Some d =>
+      if ((y <? 0) || (9999 <? y) || (m <? 1) || (12 <? m) || (d <? 1) || (days_in y m <? d))%Z then None
+      else Some (wrap_i32 y, wrap_i32 m, wrap_i32 d)
     | _, _, _ => None
     end
   | _ => None
   end.
+
+(* decimalFromString: maxDecimalExponent *)
+Definition max_decimal_exponent : Z := 1000%Z.
 
 (* ------------------------------------------------------------ the switch *)
 (* Ok None is "an invalid protoreflect.Value with a nil error" *)
@@ -227,39 +248,97 @@ Definition scalar_from_go (orc : oracles) (k : scalar_kind) (v : goval) : outcom
     match v with
     | GBool b => Ok (Some (VBool b))
     | GNil => Ok None
-    | _ => Err "expected bool"
+    | _ => Err "type: expected bool"
     end
   | KString | KKey =>
     match v with
     | GStr s => Ok (Some (VStr s))
     | GNil => Ok None
-    | _ => Err "expected string"
+    | _ => Err "type: expected string"
     end
   | KInt32 | KInt64 | KUint32 | KUint64 => int_from_go k v
   | KFloat32 | KFloat64 => float_from_go orc k v
   | KBytes =>
     match v with
     | GStr s => match bytes_from_string s with Some b => Ok (Some (VBytes b)) | None => Err "base64" end
-    | _ => Err "expected []byte"
+    | _ => Err "type: expected []byte"
     end
   | KTimestamp =>
     match v with
     | GStr s => match o_time orc s with Some (sec, ns) => Ok (Some (mk_timestamp sec ns)) | None => Err "time.Parse" end
-    | _ => Err "expected timestamp"
+    | _ => Err "type: expected timestamp"
     end
   | KDecimal =>
     match v with
-    | GStr s => match o_decimal orc s with Some d => Ok (Some (mk_decimal d)) | None => Err "decimal" end
-    | _ => Err "expected decimal"
+    | GStr s | GNum s =>
+      match o_decimal orc s with
+      | Some (d, ex) =>
+          if (max_decimal_exponent <? Z.abs ex)%Z then Err "decimal exponent out of range"
+          else Ok (Some (mk_decimal d))
+      | None => Err "decimal"
+      end
+    | _ => Err "type: expected decimal"
     end
   | KDate =>
     match v with
     | GStr s => match date_from_string s with Some (y, m, d) => Ok (Some (mk_date y m d)) | None => Err "date" end
-    | _ => Err "expected date"
+    | _ => Err "type: expected date"
     end
   end.
 
-(* which dynamic types each kind's switch has an arm for (compared with gen/SwitchGen.v) *)
-Definition accepts_nil (k : scalar_kind) : bool :=
-  match scalar_from_go (mkOracles (fun _ => None) (fun _ => None) (fun _ => None)) k GNil with
-  | Ok None => true | _ => false end.
+(* ------------------------------------------------------------ the switch tables
+   What the Go source's type switches look like, as this model understands them;
+   proofs/CodecDecProofs.v checks them against gen/SwitchGen.v (read from the Go
+   AST on every run) and against the behaviour of [scalar_from_go]. *)
+Local Open Scope string_scope.
+Definition switch_name (k : scalar_kind) : string :=
+  match k with
+  | KInt32 => "Integer/FORMAT_INT32" | KInt64 => "Integer/FORMAT_INT64"
+  | KUint32 => "Integer/FORMAT_UINT32" | KUint64 => "Integer/FORMAT_UINT64"
+  | KFloat32 | KFloat64 => "Float"
+  | KBool => "Bool" | KString => "String_" | KBytes => "Bytes" | KKey => "Key"
+  | KDate => "Date" | KDecimal => "Decimal" | KTimestamp => "Timestamp"
+  end.
+Definition kind_group (k : scalar_kind) : string :=
+  match k with
+  | KInt32 | KInt64 | KUint32 | KUint64 => "Integer"
+  | _ => switch_name k
+  end.
+
+Definition int_arms : list string :=
+  ["uint"; "uint16"; "uint32"; "uint64"; "int"; "int16"; "int32"; "int64"; "string"; "default"].
+Definition model_value_arms : list (string * list string) := [
+  ("Bool", ["bool"; "*bool"; "nil"; "default"]);
+  ("Bytes", ["[]byte"; "string"; "*string"; "default"]);
+  ("Date", ["*date_j5t.Date"; "string"; "*string"; "default"]);
+  ("Decimal", ["string"; "json.Number"; "*string"; "*decimal_j5t.Decimal"; "*decimal.Decimal"; "decimal.Decimal"; "default"]);
+  ("Float", ["json.Number"; "string"]);
+  ("Integer/FORMAT_INT32", int_arms);
+  ("Integer/FORMAT_INT64", int_arms);
+  ("Integer/FORMAT_UINT32", int_arms);
+  ("Integer/FORMAT_UINT64", int_arms);
+  ("Key", ["string"; "*string"; "nil"; "default"]);
+  ("String_", ["string"; "*string"; "nil"; "default"]);
+  ("Timestamp", ["string"; "*string"; "*timestamppb.Timestamp"; "time.Time"; "default"])
+].
+Definition model_number_assert : list string := ["Integer"].
+
+Fixpoint arms_of (tbl : list (string * list string)) (name : string) : list string :=
+  match tbl with
+  | [] => []
+  | (n, a) :: r => if String.eqb n name then a else arms_of r name
+  end.
+Definition has_arm (tbl : list (string * list string)) (k : scalar_kind) (ty : string) : bool :=
+  existsb (String.eqb ty) (arms_of tbl (switch_name k)).
+
+(* behaviour: a dynamic type is "handled" when the result is not a type error *)
+Definition no_oracles : oracles := mkOracles (fun _ => None) (fun _ => None) (fun _ => None).
+Definition is_type_error {A} (o : outcome A) : bool :=
+  match o with
+  | Err c => String.prefix "type:" c
+  | _ => false
+  end.
+Definition handles (k : scalar_kind) (v : goval) : bool := negb (is_type_error (scalar_from_go no_oracles k v)).
+(* nil yields "an invalid Value with a nil error" *)
+Definition nil_gives_invalid (k : scalar_kind) : bool :=
+  match scalar_from_go no_oracles k GNil with Ok None => true | _ => false end.
